@@ -318,6 +318,21 @@ def _cold_child(args):
         return {'k': k, 'crash': (p.stdout + p.stderr)[-300:]}
 
 
+def _lazy_models(chk):
+    """LazyInit.tla: the design question behind the cold-start part (positive: eager / idempotent; negative: unguarded lazy build)"""
+    for design, must_hold in (('eager', True), ('lazy_idempotent', True), ('lazy_unguarded', False)):
+        cfg = replay.write_cfg('lazy_' + design, {'Threads': '{1, 2, 3}', 'Objects': '{"lang", "dir"}', 'Design': '"%s"' % design}, invariants=('FirstUse',))
+        try:
+            res = tlc.run('MC_C14_lazy', cfg=cfg, workers=2)
+        finally:
+            replay.rm_cfg(cfg)
+        chk.add_tlc(res, 'lazyinit_' + design)
+        if must_hold and res.violation:
+            chk.violation('spec|lazyinit|' + design, 'LazyInit.tla: T-FirstUse fails for the design %s' % design, {'cfg': 'lazyinit', 'group': 'spec'})
+        if not must_hold and not res.violation:
+            chk.machinery('negative model LazyInit(%s) was not refuted (vacuity guard)' % design)
+
+
 def _cold_part(chk, tier):
     """the FIRST call in a process is a state of its own (whatever is initialised lazily is not initialised yet): every pre-emption
     point of the very first compile in a fresh interpreter, with a second thread making its first call in the gap"""
@@ -457,5 +472,6 @@ def main(tier):
         chk.count(npre, traces=npre)
         chk.add_distinct(npre)
         chk.notes['line_preemption_points'] = npre
+    _lazy_models(chk)
     _cold_part(chk, tier)
     return chk.finish()
